@@ -294,12 +294,13 @@ static std::string shape_tokens(const Table& t, int variant) {
 }
 // E line: the env observed (status of each step, in order) goes to the model; the implementation line carries
 // outcome and executed step names; the model must reproduce both from the env.
-static void emit_E(const Table& t, int variant, const Run& R, const std::string& file_verdict, const std::string& tag) {
+static void emit_E(const Table& t, int variant, const Run& R, const std::string& file_verdict, const std::string& tag, int fcall = -1) {
   fprintf(fc, "E %s |", shape_tokens(t, variant).c_str());
   for (auto& s : R.trace) fprintf(fc, " %d", s.status != 0 ? 1 : 0);
   fprintf(fc, "\n");
   std::string names; for (auto& s : R.trace) { if (!names.empty()) names += ","; names += s.name; }
-  fprintf(fi, "ret=%d steps=%s file=%s tag=%s fired=%d\n", R.ret, names.c_str(), file_verdict.c_str(), tag.c_str(), R.fired + R.step_fired);  if (getenv("C08_DEBUG")) fflush(fi);
+  // fcall: index of the cfitsio call inside which the failing libc operation was issued (libc faults only)
+  fprintf(fi, "ret=%d steps=%s file=%s tag=%s fired=%d fcall=%d\n", R.ret, names.c_str(), file_verdict.c_str(), tag.c_str(), R.fired + R.step_fired, fcall);  if (getenv("C08_DEBUG")) fflush(fi);
 }
 
 int main(int argc, char** argv) {
@@ -421,6 +422,8 @@ int main(int argc, char** argv) {
         }
         apply(o, o.len);
       }
+      // hypotheses of C08_crash_safe, evaluated by the model on the recorded log: front to back, result = the encoding
+      fprintf(fc, "A\n"); fprintf(fi, "ao\n");
       // plain byte prefixes of the final file (the literal statement of C08_prefix_safe)
       std::vector<long> ns;
       if (thorough && nblocks <= 20) for (long n = 0; n <= (long)F.size(); n++) ns.push_back(n);
@@ -522,7 +525,7 @@ int main(int argc, char** argv) {
           stats[std::string("fault_") + kindname[kind]]++; if (R.fired) stats[std::string("fault_fired_") + kindname[kind]]++;
           stats[R.ret ? "fault_reported_failure" : "fault_reported_success"]++;
           char tag[64]; snprintf(tag, sizeof tag, "libc:%s/%s@%d", kindname[kind], ops[k].step, k);
-          emit_E(t, variant, R, read_verdict(path, t), tag);
+          emit_E(t, variant, R, read_verdict(path, t), tag, ops[k].stepno);
         }
       }
     }
